@@ -23,7 +23,8 @@ GNext ==
   \/ \E m \in 1 .. K : PeerRead(m) /\ H([o |-> "pread", n |-> m])
   \/ \E m \in 1 .. KI : PeerWrite(m) /\ H([o |-> "pwrite", n |-> m])
   \/ PeerClose /\ H([o |-> "pshut"])
-  \/ WritableCb /\ hist' = Append(hist, Pass("none"))
+  \/ WritableCb /\ hist' = Append(hist, Pass(IF cb' # 0 THEN "complete" ELSE "none"))
+  \/ CompleteExit /\ UNCHANGED hist
   \/ RunNextDelete /\ hist' = Append(hist, Pass("none"))
   \/ RecvEnter /\ hist' = Append(hist, Pass("recv"))
   \/ \E c \in 0 .. MaxPeer : RecvExit(c) /\ hist' = [hist EXCEPT ![Len(hist)].c = IF c = Len(rbuf) THEN -1 ELSE c]
